@@ -214,3 +214,24 @@ func idHook(ids func(s *sm.Session) []string) sm.Hook {
 		return nil
 	}
 }
+
+// ghostProbe: a collection that does not exist (per the model) must be reported missing by
+// the calls that answer from the catalog entry (Count without criteria, ListIndexes), also
+// right after a failed operation that would have created it.
+func ghostProbe(s *sm.Session, property string, names []string) *sm.Fail {
+	if s.M.Closed {
+		return nil
+	}
+	for _, n := range names {
+		if s.M.Colls[n] != nil {
+			continue
+		}
+		for _, op := range []cs.Op{{Kind: "count", Q: &cs.Query{Coll: n}}, {Kind: "listindexes", Coll: n}} {
+			out := run.Exec(s.H.DB, &op)
+			if out.Err != "ErrCollectionNotExist" {
+				return &sm.Fail{Property: property, Clause: "ghost-collection", Detail: fmt.Sprintf("%s on the missing collection %q returned err=%q n=%d instead of ErrCollectionNotExist", op.Kind, n, out.Err, out.N)}
+			}
+		}
+	}
+	return nil
+}
